@@ -276,6 +276,28 @@ def oracle(case):
             labels.append("outside:left/bottom-within-one-cell")
         pts.append([x, y])
     if pts:
+        # one call mixing inside points, outside points and a NaN point
+        ins = [[xll + (divmod(c, nc)[1] + 0.5 + u) * csz,
+                yll + (nr - 1 - divmod(c, nc)[0] + 0.5 + v) * csz]
+               for c, u, v in case["inside"]]
+        mix, expm = [], []
+        for i in range(max(len(ins), len(pts))):
+            if i < len(pts):
+                mix.append(pts[i])
+                expm.append(-1)
+            if i < len(ins):
+                mix.append(ins[i])
+                expm.append(case["inside"][i][0])
+            if i == 1:
+                mix.append([float("nan"), yll])
+                expm.append(-1)
+        gotm = g.coord2cell(np.array(mix))
+        if not np.array_equal(gotm, expm):
+            k = int(np.argmax(gotm != np.array(expm)))
+            raise Violation(
+                f"coord2cell on a vector mixing inside and outside points: "
+                f"element {k} {mix[k]} -> {gotm[k]}, expected {expm[k]}; "
+                f"geometry {case_geom(case)}")
         got = g.coord2cell(np.array(pts))
         if not np.all(got == -1):
             i = int(np.argmax(got != -1))
